@@ -64,35 +64,43 @@ Proof. intros n x []. Qed.
 (* ---------- BS ---------- *)
 Definition BS (s : sess) : Prop := forall x, In x (s_in_buf s) -> x <> None.
 
-Lemma set_state_in_buf s next : s_in_buf (set_state s next) = s_in_buf s \/ s_in_buf (set_state s next) = [].
+Lemma same_boundary s s1 : Same s s1 -> Boundary s -> Boundary s1.
 Proof.
-  unfold set_state, set_state_with. destruct (negb (is_connected next)); [|left; reflexivity].
-  destruct (is_connected (s_st s)).
-  - right. unfold handle_disconnect_state. cbv zeta. destruct (s_pending_stop _); reflexivity.
-  - left. destruct (s_pending_stop s); reflexivity.
+  intros (S1 & S2 & S3 & _ & _ & _ & _ & S8) [B1 B2]. split; intros H; rewrite S8 in H.
+  - rewrite S1, S2. apply B1; exact H.
+  - rewrite S1, S2, S3. apply B2; exact H.
 Qed.
 
-Lemma incoming_in_buf s m : s_in_buf (incoming s m) = s_in_buf s \/ s_in_buf (incoming s m) = [].
+Lemma set_state_in_buf s next : Boundary s -> s_in_buf (set_state s next) = s_in_buf s \/ s_in_buf (set_state s next) = [].
 Proof.
-  unfold incoming, incoming_with. destruct (negb (is_connected (s_st s))); [left; reflexivity|].
+  intros Hb. destruct (is_connected next) eqn:En.
+  - left. unfold set_state, set_state_with. rewrite En. reflexivity.
+  - right. exact (proj2 (proj2 (proj2 (set_state_disconnects s next En Hb)))).
+Qed.
+
+Lemma incoming_in_buf s m : Boundary s -> s_in_buf (incoming s m) = s_in_buf s \/ s_in_buf (incoming s m) = [].
+Proof.
+  intros Hb. unfold incoming, incoming_with. destruct (negb (is_connected (s_st s))); [left; reflexivity|].
   destruct m as [mm|]; [|left; reflexivity].
   destruct (state_fix_msg_in (s_st s) s mm) as [s1 next] eqn:E.
   fold (set_state s1 next).
-  destruct (set_state_in_buf s1 next) as [H|H]; [left | right; exact H].
-  rewrite H. exact (same_buf _ _ (fr_state_fix_msg_in s _ _ _ _ _ E (same_refl s))).
+  pose proof (fr_state_fix_msg_in s _ _ _ _ _ E (same_refl s)) as S1.
+  destruct (set_state_in_buf s1 next (same_boundary _ _ S1 Hb)) as [H|H]; [left | right; exact H].
+  rewrite H. exact (same_buf _ _ S1).
 Qed.
 
 (* how the inbound buffer moves in one event *)
-Lemma step_in_buf : forall s e,
+Lemma step_in_buf : forall s e, Boundary s ->
   s_in_buf (step s e) = []
   \/ s_in_buf (step s e) = s_in_buf s
   \/ (exists m, e = EArrive m /\ s_in_buf (step s e) = s_in_buf s ++ [Some m])
   \/ (e = EDeliver /\ exists m, s_in_buf s = m :: s_in_buf (step s e)).
 Proof.
-  intros s e. unfold step. change (s_in_buf s) with (s_in_buf (clear_logs s)).
-  set (c := clear_logs s). clearbody c.
-  assert (Hss : forall x next, s_in_buf x = s_in_buf c -> s_in_buf (set_state x next) = [] \/ s_in_buf (set_state x next) = s_in_buf c).
-  { intros x next Hx. destruct (set_state_in_buf x next) as [H|H]; [right | left; exact H].
+  intros s e Hb0. unfold step. change (s_in_buf s) with (s_in_buf (clear_logs s)).
+  assert (Hb : Boundary (clear_logs s)) by exact Hb0.
+  set (c := clear_logs s) in *. clearbody c. clear Hb0.
+  assert (Hss : forall x next, Boundary x -> s_in_buf x = s_in_buf c -> s_in_buf (set_state x next) = [] \/ s_in_buf (set_state x next) = s_in_buf c).
+  { intros x next Hbx Hx. destruct (set_state_in_buf x next Hbx) as [H|H]; [right | left; exact H].
     rewrite H. exact Hx. }
   assert (Hsm : forall x, Same c x -> s_in_buf x = [] \/ s_in_buf x = s_in_buf c \/
                  (exists m, e = EArrive m /\ s_in_buf x = s_in_buf c ++ [Some m]) \/ (e = EDeliver /\ exists m, s_in_buf c = m :: s_in_buf x)).
@@ -102,32 +110,37 @@ Proof.
     match goal with |- context [set_sent_reset ?x false] => set (c0 := set_sent_reset x false) end.
     left. assert (H0 : s_in_buf c0 = []) by reflexivity.
     assert (Hfin : forall x, Same c0 x -> s_in_buf (set_state x SLogon) = []).
-    { intros x Hx. destruct (set_state_in_buf x SLogon) as [H|H]; [|exact H]. rewrite H, (same_buf _ _ Hx). exact H0. }
+    { intros x Hx. rewrite (set_state_connected x SLogon eq_refl). cbn [upd_st s_in_buf]. rewrite (same_buf _ _ Hx). exact H0. }
     destruct (negb (initiator c0)); apply Hfin; fr_go.
   - destruct (_ && _); [|right; left; reflexivity]. right; right; left. exists m. split; reflexivity.
-  - destruct (negb (s_in_open c)); [right; left; reflexivity|]. destruct (s_in_buf c) as [|m r] eqn:Eb; [first [left; exact Eb | left; reflexivity | right; left; reflexivity]|].
+  - destruct (negb (s_in_open c)); [right; left; reflexivity|].
+    destruct (s_in_buf c) as [|m r] eqn:Eb; [first [left; exact Eb | left; reflexivity | right; left; reflexivity]|].
     set (c1 := upd_chan c (s_out_open c) (s_in_open c) r (s_closed c)).
-    destruct (incoming_in_buf c1 m) as [H|H]; [|left; exact H].
+    assert (Hb1 : Boundary c1).
+    { destruct Hb as [B1 B2]. split; cbn [c1 s_st upd_chan s_out_open s_in_open s_in_buf]; intros H; [apply B1; exact H|].
+      destruct (B2 H) as (_ & _ & D3). rewrite D3 in Eb. discriminate Eb. }
+    destruct (incoming_in_buf c1 m Hb1) as [H|H]; [|left; exact H].
     right; right; right. split; [reflexivity|]. exists m. rewrite H. reflexivity.
-  - destruct (incoming_in_buf c (Some m)) as [H|H]; [right; left; exact H | left; exact H].
-  - destruct (incoming_in_buf c None) as [H|H]; [right; left; exact H | left; exact H].
+  - destruct (incoming_in_buf c (Some m) Hb) as [H|H]; [right; left; exact H | left; exact H].
+  - destruct (incoming_in_buf c None Hb) as [H|H]; [right; left; exact H | left; exact H].
   - destruct (is_connected (s_st c)); [|right; left; reflexivity].
-    destruct (Hss c SLatent eq_refl) as [H|H]; [left; exact H | right; left; exact H].
+    destruct (Hss c SLatent Hb eq_refl) as [H|H]; [left; exact H | right; left; exact H].
   - destruct (state_timeout (s_st c) c e) as [s1 next] eqn:E.
-    destruct (Hss s1 next (same_buf _ _ (fr_state_timeout c _ _ _ _ _ E (same_refl c)))) as [H|H]; [left; exact H | right; left; exact H].
+    pose proof (fr_state_timeout c _ _ _ _ _ E (same_refl c)) as S1.
+    destruct (Hss s1 next (same_boundary _ _ S1 Hb) (same_buf _ _ S1)) as [H|H]; [left; exact H | right; left; exact H].
   - apply Hsm. fr_go.
   - apply Hsm. fr_go.
   - match goal with |- context [state_stop ?a ?b] => destruct (state_stop a b) as [s1 next] eqn:E end.
     match type of E with state_stop _ ?c0 = _ =>
-      assert (Hs : s_in_buf s1 = s_in_buf c) by exact (same_buf _ _ (fr_state_stop c0 _ _ _ _ E (same_refl c0))) end.
-    destruct (Hss s1 next Hs) as [H|H]; [left; exact H | right; left; exact H].
+      pose proof (fr_state_stop c0 _ _ _ _ E (same_refl c0)) as S1; assert (Hb0 : Boundary c0) by exact Hb end.
+    destruct (Hss s1 next (same_boundary _ _ S1 Hb0) (same_buf _ _ S1)) as [H|H]; [left; exact H | right; left; exact H].
   - apply Hsm. fr_go.
 Qed.
 
-Lemma step_bs : forall s e, BS s -> BS (step s e).
+Lemma step_bs : forall s e, Boundary s -> BS s -> BS (step s e).
 Proof.
-  intros s e Hbs x Hx.
-  destruct (step_in_buf s e) as [H|[H|[(m & _ & H)|(_ & m & H)]]].
+  intros s e Hb Hbs x Hx.
+  destruct (step_in_buf s e Hb) as [H|[H|[(m & _ & H)|(_ & m & H)]]].
   - rewrite H in Hx. destruct Hx.
   - rewrite H in Hx. exact (Hbs x Hx).
   - rewrite H in Hx. apply in_app_or in Hx as [Hx|[Hx|[]]]; [exact (Hbs x Hx) | subst x; discriminate].
